@@ -425,6 +425,36 @@ Theorem model_is_of_current_source_round2 :
 Proof. exact source_round2. Qed.
 Print Assumptions model_is_of_current_source_round2.
 
+(** Rounds 3-4.  Every pending licence is seen by every reader of the store: the export lists all
+    of them, a restart from the export keeps each one unchanged (so it can still be activated and
+    the escrow equation is the same) ... *)
+Theorem export_lists_every_licence : forall (s : state) (k : key) (l : licence),
+  lic_get (lics s) k = Some l -> In (k, l) (g_lics (export_genesis s)).
+Proof. exact export_lists_every_licence_thm. Qed.
+Print Assumptions export_lists_every_licence.
+
+Theorem restart_keeps_every_licence : forall (s : state) (k : key),
+  NoDup (lic_ids (lics s)) ->
+  lic_get (lics (init_genesis (export_genesis s) s)) k = lic_get (lics s) k /\
+  List.length (lics (init_genesis (export_genesis s) s)) = List.length (lics s).
+Proof. exact restart_keeps_every_licence_thm. Qed.
+Print Assumptions restart_keeps_every_licence.
+
+(** ... and in the source: the licence store is read through IterAll (one unbounded loop over the
+    whole prefix, no break) by AllLightNodeClientLicenses only, whose callers are the genesis
+    export, the licences query and the legacy import; the only page request in x/paloma is the one
+    the legacy import passes to x/feegrant. *)
+Theorem model_is_of_current_source_round3 :
+  Gen.C18.licence_store_users = ["AllLightNodeClientLicenses:IterAll"; "CreateLightNodeClientAccount:Delete";
+                                 "GetLightNodeClientLicense:Load"; "SetLightNodeClientLicense:Save"]%string /\
+  Gen.C18.licence_list_callers = ["ExportGenesis"; "GetLegacyLightNodeClients"; "GetLightNodeClientLicenses"]%string /\
+  Gen.C18.paloma_pagination_sites = ["GetLegacyLightNodeClients:PageRequest"]%string /\
+  Gen.C18.iterall_loops = []%string /\ Gen.C18.iterall_breaks = 0 /\ Gen.C18.iterall_calls = ["IterAllFnc"]%string /\
+  Gen.C18.iterallfnc_loops = ["for ; iterator.Valid(); iterator.Next()"]%string /\
+  Gen.C18.iterallfnc_breaks = 0 /\ Gen.C18.iterallfnc_calls = ["Iterator"]%string.
+Proof. exact source_round3. Qed.
+Print Assumptions model_is_of_current_source_round3.
+
 (** The model is the model of the source as it is now: constants, the order of the effect-bearing
     calls in the three keeper functions and in the sale handler, the expressions that fix the
     vesting schedule and who is activated, the commit discipline of processAttestation, and the
